@@ -7,7 +7,7 @@ import (
 	mhprimary "github.com/ipld/go-storethehash/store/primary/multihash"
 )
 
-// Verif_H06GC: C06 — one foreground call concurrent with one GC cycle (index or
+// Verif_H06GC: C06 — one foreground call (or an explicit Flush with pending work) concurrent with one GC cycle (index or
 // primary) on a store whose non-current files hold superseded records: the call does
 // not fail, returns what the map model returns, and the final contents are the model's.
 func Verif_H06GC() {
@@ -32,12 +32,26 @@ func Verif_H06GC() {
 	}
 	var kinds []int
 	km := vrt.Param("ckinds", 7)
-	for i, k := range []int{opPut, opGet, opRemove} {
+	for i, k := range []int{opPut, opGet, opRemove, opFlush} {
 		if km&(1<<i) != 0 {
 			kinds = append(kinds, k)
 		}
 	}
 	a := symOp(kinds, len(keys))
+	if a.kind == opFlush {
+		// a flush concurrent with the cycle needs something to write: one acknowledged,
+		// still unflushed operation before the window
+		if vrt.Param("pendingputs", 0) != 0 {
+			// every key rewritten and unflushed: the flush writes one record list per bucket
+			for i := range keys {
+				v := vrt.Bytes("pval", 1)
+				vrt.Assert(s.Put(keys[i], v) == nil, "put-no-error", "where", "pending")
+				m.set(i, true, v)
+			}
+		} else {
+			apiStep(s, c, keys, m, []int{opPut, opRemove}[vrt.Choose("pending-op", 2)], "pending")
+		}
+	}
 	gcKind := vrt.Param("gckind", -1)
 	if gcKind < 0 {
 		gcKind = vrt.Choose("gc-kind", 2)
@@ -65,11 +79,22 @@ func Verif_H06GC() {
 	vrt.Assert(gcErr == nil, "gc-cycle-no-error", "gc", gcKind)
 	vrt.Assert(a.err == nil, "call-concurrent-with-gc-returns-no-error", "kind", a.kind, "gc", gcKind)
 	vrt.Assert(a.matches(m, false), "call-concurrent-with-gc-matches-model", "kind", a.kind, "gc", gcKind)
-	ctxs := []string{"after-put", "after-get", "after-remove"}[a.kind] + []string{"+index-gc", "+primary-gc"}[gcKind]
+	ctxs := map[int]string{opPut: "after-put", opGet: "after-get", opRemove: "after-remove", opFlush: "after-flush"}[a.kind] + []string{"+index-gc", "+primary-gc"}[gcKind]
 	checkAll(s, keys, m, ctxs)
 	vrt.Assert(s.Flush() == nil, "flush-no-error")
 	checkAll(s, keys, m, ctxs+"+flush")
 	fsck(s, dir, "after-concurrent-gc")
 	vrt.Assert(s.Close() == nil, "close-no-error")
+	if vrt.Param("reopen", 1) != 0 {
+		// what the cycle did to the files underneath the call shows at the latest when the
+		// caches are gone
+		s2, err := openCfg(dir, c)
+		vrt.Assert(err == nil, "reopen-no-error")
+		if err != nil {
+			return
+		}
+		checkAll(s2, keys, m, ctxs+"+reopen")
+		vrt.Assert(s2.Close() == nil, "close2-no-error")
+	}
 	vrt.Cover("h06-end")
 }
